@@ -62,3 +62,35 @@ Example analysis_accepts_reads_of_the_argument :
   check (block [CGet 1 0 (EInt 1); CGet 2 1 (EStr (lit "s:en")); CCopy 3 2; CSet 3 (EInt 1) (EReg 3)])%nat [] <> None /\
   check (block [CGet 1 0 (EInt 1); CGet 2 1 (EStr (lit "s:en")); CCopy 3 2; CSet 2 (EInt 1) (EReg 3)])%nat [] = None.
 Proof. split; vm_compute; [discriminate|reflexivity]. Qed.
+
+(* ---- instance state: the programs without the line that (re)initialises it ---------------------------------------------- *)
+Fixpoint zl_eqb (a b : list Z) : bool :=
+  match a, b with
+  | [], [] => true
+  | x :: s, y :: t => (x =? y) && zl_eqb s t
+  | _, _ => false
+  end.
+
+Definition span_kinds : list Z := [W_DFXP; W_SAMI; W_LEGACY; W_SINGLE].
+Definition rejects_du (p : cmd) : bool := match du p inst_regs with None => true | Some _ => false end.
+
+(* without `self.open_span = False` (and WebVTT without `self.global_layout = ..`) the programs read instance state they have
+   not assigned: REJECTED by the analysis; and on the history of defect 15 the reused writer object does emit other tokens
+   than a fresh one, while the repaired programs emit the same (same object again = fresh object = first time) *)
+Theorem missing_reset_rejected_and_wrong :
+  forallb (fun k => rejects_du (prog_with false k)) span_kinds = true /\
+  rejects_du prog_vtt_no_global = true /\
+  forallb (fun k => let r := runP (mkCfg true true false) world0 (hist15 k) in
+                    negb (zl_eqb (tokens_of r 4) (tokens_of r 5))) span_kinds = true /\
+  forallb (fun k => let r := runP fixed world0 (hist15 k) in
+                    zl_eqb (tokens_of r 4) (tokens_of r 5) && zl_eqb (tokens_of r 4) (tokens_of r 2)) span_kinds = true.
+Proof. repeat split; vm_compute; reflexivity. Qed.
+
+(* the two models agree on the tokens and on open_span after every operation of that history (both cfgs) *)
+Example programs_render_like_the_store_model :
+  forallb (fun k => forallb (fun c =>
+     forallb (fun p => zl_eqb (mo_tokens (fst (fst p))) (mo_tokens (fst (snd p)))
+                       && Bool.eqb (mo_open (fst (fst p))) (mo_open (fst (snd p))))
+             (combine (run c world0 (hist15 k)) (runP c world0 (hist15 k))))
+     [fixed; mkCfg true true false]) span_kinds = true.
+Proof. vm_compute. reflexivity. Qed.
